@@ -207,6 +207,8 @@ struct Batch {
     qfails: Vec<QFail>,
     rfails: Vec<RFail>,
     digest: u64,
+    /// digest over the runs with index < cross_sub(o)
+    digest_prefix: u64,
     wall: f64,
     distinct_nontrivial: u64,
     outcomes: [u64; 3],
@@ -235,8 +237,9 @@ fn run_batch(o: &Opts) -> Batch {
         Bitmap::new(65536),
         Bitmap::new(if o.prop == "C19" { 1u64 << 32 } else { 64 }),
     ]);
-    let merged: Arc<Mutex<(Stats, Vec<QFail>, Vec<RFail>, u64, Vec<(u64, String)>, u64)>> =
-        Arc::new(Mutex::new((Stats::new(), Vec::new(), Vec::new(), 0, Vec::new(), 0)));
+    let merged: Arc<Mutex<(Stats, Vec<QFail>, Vec<RFail>, u64, Vec<(u64, String)>, u64, u64)>> =
+        Arc::new(Mutex::new((Stats::new(), Vec::new(), Vec::new(), 0, Vec::new(), 0, 0)));
+    let prefix_n = cross_sub(o);
     let mode = match o.prop.as_str() {
         "C04" => Some(Mode::C04),
         "C12" => Some(Mode::C12),
@@ -259,6 +262,7 @@ fn run_batch(o: &Opts) -> Batch {
             let mut qf: Vec<QFail> = Vec::new();
             let mut rf: Vec<RFail> = Vec::new();
             let mut dig: u64 = 0;
+            let mut dig_prefix: u64 = 0;
             let mut samples: Vec<(u64, String)> = Vec::new();
             let mut done = 0u64;
             loop {
@@ -285,6 +289,9 @@ fn run_batch(o: &Opts) -> Batch {
                         Some(mode) => {
                             let g = gen::generate_and_run(o.seed, run, mode, &mut st);
                             dig = dig.wrapping_add(mix(run, g.digest));
+                            if run < prefix_n {
+                                dig_prefix = dig_prefix.wrapping_add(mix(run, g.digest));
+                            }
                             if g.nontrivial {
                                 st.nontrivial_runs += 1;
                                 distinct.set(g.digest);
@@ -311,6 +318,9 @@ fn run_batch(o: &Opts) -> Batch {
                         None => {
                             let g = rngsim::generate_and_run(o.seed, run, &mut st, &outcomes);
                             dig = dig.wrapping_add(mix(run, g.digest));
+                            if run < prefix_n {
+                                dig_prefix = dig_prefix.wrapping_add(mix(run, g.digest));
+                            }
                             if g.case.words.len() >= 2 {
                                 st.nontrivial_runs += 1;
                                 distinct.set(g.digest);
@@ -341,6 +351,7 @@ fn run_batch(o: &Opts) -> Batch {
             m.3 = m.3.wrapping_add(dig);
             m.4.extend(samples);
             m.5 += done;
+            m.6 = m.6.wrapping_add(dig_prefix);
         }));
     }
     // monitor: wait for the workers; a worker stuck on one run for longer than HANG_MS is a hang
@@ -379,9 +390,9 @@ fn run_batch(o: &Opts) -> Batch {
     // with a hang the stuck worker still holds a reference: take what the others merged
     let m = {
         let mut g = merged.lock().unwrap();
-        std::mem::replace(&mut *g, (Stats::new(), Vec::new(), Vec::new(), 0, Vec::new(), 0))
+        std::mem::replace(&mut *g, (Stats::new(), Vec::new(), Vec::new(), 0, Vec::new(), 0, 0))
     };
-    let (stats, mut qfails, mut rfails, digest, mut samples, runs_done) = m;
+    let (stats, mut qfails, mut rfails, digest, mut samples, runs_done, digest_prefix) = m;
     qfails.sort_by_key(|f| f.run);
     rfails.sort_by_key(|f| f.run);
     samples.sort();
@@ -390,6 +401,7 @@ fn run_batch(o: &Opts) -> Batch {
         qfails,
         rfails,
         digest,
+        digest_prefix,
         wall: t0.elapsed().as_secs_f64(),
         distinct_nontrivial: distinct.count(),
         outcomes: [outcomes[0].count(), outcomes[1].count(), outcomes[2].count()],
@@ -403,6 +415,15 @@ fn run_batch(o: &Opts) -> Batch {
 // ---------------------------------------------------------------------------------------
 // evidence
 // ---------------------------------------------------------------------------------------
+
+/// how many of the batch's runs (a prefix) the second build profile repeats
+fn cross_sub(o: &Opts) -> u64 {
+    if o.tier == "quick" {
+        o.runs
+    } else {
+        (o.runs / 4).max(1)
+    }
+}
 
 fn probe_range(prop: &str) -> (usize, usize) {
     match prop {
@@ -774,7 +795,7 @@ fn cmd_run(o: &Opts) -> i32 {
             b.digest,
             b.qfails.len() + b.rfails.len()
         );
-        return if b.timed_out { 2 } else { 0 };
+        return if b.timed_out || b.hang_run.is_some() { 2 } else { 0 };
     }
     if b.timed_out {
         eprintln!("simcheck: wall-clock safety cap hit after {} of {} runs: harness error, no verdict", b.runs_done, o.runs);
@@ -895,53 +916,53 @@ fn cmd_run(o: &Opts) -> i32 {
         }
     }
 
-    // cross-profile by-product (thorough tier): the plain optimised build must observe the
-    // same bits on a sub-batch — reported in the evidence, and a divergence is a harness-level
-    // alarm only if it shows up as a violation in that build (it runs the same oracle).
+    // second build profile: the plain optimised build (no overflow checks, no debug assertions —
+    // what a downstream user ships) runs the same check on a sub-batch of the same runs. A
+    // violation there is a violation; as a by-product the two builds' digests (every observed
+    // bit) are compared.
     let mut cross: Option<J> = None;
     let mut cross_violation = false;
     if let (Some(fb), None) = (&o.fast_bin, &violation) {
-        let sub = o.runs.min(4_000_000);
-        let run_digest = |bin: &str, profile: &str| -> Option<(String, i32, String)> {
-            let out = std::process::Command::new(bin)
-                .args(["run", &o.prop, "--tier", &o.tier, "--runs", &sub.to_string(), "--seed", &o.seed.to_string(), "--workers", &o.workers.to_string(), "--profile", profile, "--digest-only"])
-                .output()
-                .ok()?;
-            let t = String::from_utf8_lossy(&out.stdout).to_string();
-            let d = t.lines().find(|l| l.starts_with("DIGEST"))?.to_string();
-            Some((d, out.status.code().unwrap_or(2), t))
-        };
-        let me = std::env::current_exe().ok().map(|p| p.to_string_lossy().to_string()).unwrap_or_default();
-        let a = run_digest(&me, &o.profile);
-        let f = run_digest(fb, "fast");
-        match (a, f) {
-            (Some((da, _, _)), Some((df, _, _))) => {
-                let same = da == df;
-                cross = Some(obj(vec![
-                    ("runs_compared", i(sub)),
-                    ("checked_profile", s(&da)),
-                    ("fast_profile", s(&df)),
-                    ("identical_observations", J::B(same)),
-                ]));
-                if !same {
-                    // find what differs by running the fast binary as a full check on the sub-batch
-                    let out = std::process::Command::new(fb)
-                        .args(["run", &o.prop, "--tier", &o.tier, "--runs", &sub.to_string(), "--seed", &o.seed.to_string(), "--workers", &o.workers.to_string(), "--profile", "fast", "--replays", &o.replays])
-                        .args(o.known.iter().flat_map(|k| vec!["--known".to_string(), k.clone()]))
-                        .output();
-                    if let Ok(out) = out {
-                        let t = String::from_utf8_lossy(&out.stdout).to_string();
-                        if out.status.code() == Some(1) {
-                            print!("{t}");
-                            cross_violation = true;
-                        } else {
-                            println!("note: checked and fast profiles observed different bits on {sub} runs but neither violates the oracle (tolerance zone); see evidence.cross_profile");
+        let sub = cross_sub(o);
+        let out = std::process::Command::new(fb)
+            .args(["run", &o.prop, "--tier", &o.tier, "--runs", &sub.to_string(), "--seed", &o.seed.to_string(), "--workers", &o.workers.to_string(), "--profile", "fast", "--replays", &o.replays])
+            .args(o.known.iter().flat_map(|k| vec!["--known".to_string(), k.clone()]))
+            .output();
+        match out {
+            Ok(out) => {
+                let t = String::from_utf8_lossy(&out.stdout).to_string();
+                let d = t.lines().find(|l| l.starts_with("DIGEST")).unwrap_or("").to_string();
+                let mine = format!("DIGEST property={} seed={} runs={} digest={:016x}", o.prop, o.seed, sub, b.digest_prefix);
+                match out.status.code() {
+                    Some(0) => {
+                        let same = d == mine;
+                        cross = Some(obj(vec![
+                            ("profile", s("fast: opt-level 3, overflow-checks off, debug-assertions off")),
+                            ("runs", i(sub)),
+                            ("violations", i(0)),
+                            ("checked_profile_digest", s(&mine)),
+                            ("fast_profile_digest", s(&d)),
+                            ("identical_observations", J::B(same)),
+                        ]));
+                        if !same {
+                            eprintln!("simcheck: both build profiles satisfy the oracle but their digests differ: harness error\n  {mine}\n  {d}");
+                            return 2;
                         }
+                    }
+                    Some(1) => {
+                        println!("--- the plain optimised build (profile fast) reports:");
+                        print!("{t}");
+                        cross = Some(obj(vec![("profile", s("fast")), ("runs", i(sub)), ("violations", i(1))]));
+                        cross_violation = true;
+                    }
+                    c => {
+                        eprintln!("simcheck: fast-profile sub-batch failed (exit {c:?}):\n{t}{}", String::from_utf8_lossy(&out.stderr));
+                        return 2;
                     }
                 }
             }
-            _ => {
-                eprintln!("simcheck: cross-profile sub-batch could not be run");
+            Err(e) => {
+                eprintln!("simcheck: cannot run the fast-profile binary: {e}");
                 return 2;
             }
         }
@@ -974,6 +995,7 @@ fn cmd_run(o: &Opts) -> i32 {
     if cross_violation {
         return 1;
     }
+    println!("DIGEST property={} seed={} runs={} digest={:016x}", o.prop, o.seed, b.runs_done, b.digest);
     println!("OK property={} held on everything explored", o.prop);
     0
 }
